@@ -37,6 +37,16 @@ func (a *CommitAgent) Step(s *Sim) {
 			}
 			return v
 		}
+		// vest liquid tokens when governance has added such a programme
+		if r.IntN(6) == 0 {
+			for _, vi := range s.N0.App.CommitmentKeeper.GetParams(ctx).VestingInfos {
+				if vi.BaseDenom != DenomEDEN {
+					s.SendTx(u, "commit/vest_liquid", &commitmenttypes.MsgVestLiquid{Creator: u.Addr.String(), Amount: s.uniq(logUniform(r, 10, 1e8)), Denom: vi.BaseDenom})
+					break
+				}
+			}
+			continue
+		}
 		switch r.IntN(14) {
 		case 0, 1:
 			s.SendTx(u, "commit/vest", &commitmenttypes.MsgVest{Creator: u.Addr.String(), Amount: amtOf(edenClaimed), Denom: DenomEDEN})
